@@ -132,6 +132,7 @@ func init() {
 	}
 	verifAPI["verifReach"] = func(e *Exec, args []Value, st string) Value {
 		e.Reached[argStr(args[0])]++
+		e.pathReached = append(e.pathReached, argStr(args[0]))
 		return nil
 	}
 	verifAPI["verifObserve"] = func(e *Exec, args []Value, st string) Value {
@@ -173,6 +174,13 @@ func init() {
 	verifAPI["verifNote"] = func(e *Exec, args []Value, st string) Value {
 		e.Assumes[argStr(args[0])] = true
 		return nil
+	}
+	verifAPI["verifParam"] = func(e *Exec, args []Value, st string) Value {
+		name := argStr(args[0])
+		if v, ok := e.params[name]; ok {
+			return BV(64, uint64(int64(v)))
+		}
+		return args[1]
 	}
 	// verifIsSym reports whether the engine runs symbolically (false natively)
 	verifAPI["verifSymbolic"] = func(e *Exec, args []Value, st string) Value {
